@@ -139,54 +139,21 @@ class Directions:
         u = self.unit
         gd = u.func("DensitySubGrid::get_output_direction")
         self.fn_mask = gd
-        # locals: x_low = three_index[0] < 0 ; x_high = (three_index[0] / _number_of_cells[0]) > 0
-        role = {}
-        decls = {}
-        for s in C.walk_stmt(gd["body"]):
-            if s.get("k") == "Decl":
-                for d in s["d"]:
-                    decls[d["id"]] = d
-        for did, d in decls.items():
-            e = C.strip_casts(d.get("init")) if d.get("init") else None
-            if e is None or e.get("k") != "Bin":
-                continue
-            axis_side = self._classify(e)
-            if axis_side:
-                role[did] = axis_side
-        # mask = (a << 5) | (b << 4) | ...
-        mask_decl = None
-        for did, d in decls.items():
-            e = C.strip_casts(d.get("init")) if d.get("init") else None
-            if e is not None and e.get("k") == "Bin" and e["op"] == "|":
-                mask_decl = d
-        if mask_decl is None:
-            raise AnalysisBroken("DensitySubGrid::get_output_direction: exit mask not found")
-        bits = {}
-
-        def terms(e):
-            e = C.strip_casts(e)
-            if e.get("k") == "Bin" and e["op"] == "|":
-                terms(e["a"])
-                terms(e["b"])
-            elif e.get("k") == "Bin" and e["op"] == "<<":
-                r = C.strip_casts(e["a"])
-                if r.get("k") == "Ref" and r.get("id") in role and C.const_int(e["b"]) is not None:
-                    bits[C.const_int(e["b"])] = role[r["id"]]
-                else:
-                    raise AnalysisBroken("exit mask term %s not understood" % C.pretty(e))
-            elif e.get("k") == "Ref" and e.get("id") in role:
-                bits[0] = role[e["id"]]
-            else:
-                raise AnalysisBroken("exit mask term %s not understood" % C.pretty(e))
-        terms(mask_decl["init"])
-        if sorted(bits) != [0, 1, 2, 3, 4, 5] or sorted(bits.values()) != sorted(
-                (a, s) for a in range(3) for s in ("N", "P")):
-            raise AnalysisBroken("exit mask does not carry the six low/high tests exactly once: %s" % bits)
-        self.bits = bits
-        # the mask is what is passed to TravelDirections::get_output_direction
-        calls = [x for x in C.walk_stmt(gd["body"]) if C.is_call(x, fn="TravelDirections::get_output_direction")]
-        if len(calls) != 1 or C.ref_key(calls[0]["a"][0]) != ("local", mask_decl["id"], mask_decl["n"]):
-            raise AnalysisBroken("exit mask is not what is classified")
+        if len(gd["params"]) != 1:
+            raise AnalysisBroken("DensitySubGrid::get_output_direction: expected one index parameter")
+        self._pid = gd["params"][0]["id"]
+        # partial evaluation over the 27 classifications of the index (per axis: below / inside / above the range)
+        produced = {}
+        for cx in "N.P":
+            for cy in "N.P":
+                for cz in "N.P":
+                    cls = (cx, cy, cz)
+                    m = self._eval_mask(gd, cls)
+                    if m in produced:
+                        raise AnalysisBroken("exit classification: index classes %s and %s give the same mask %d" %
+                                             ("".join(produced[m]), "".join(cls), m))
+                    produced[m] = cls
+        self.class_of_mask = produced
         tfn = u.func("TravelDirections::get_output_direction")
         self.fn_table = tfn
         sw, arms, default = switch_arms(tfn)
@@ -197,17 +164,11 @@ class Directions:
         self.default_value = C.const_int(arm_return(default)) if default is not None and arm_return(default) is not None \
             else None
         self.default_aborts = default is not None and arm_aborts(default)
-        # signatures
-        for m in range(64):
-            sig = [".", ".", "."]
-            valid = True
-            for b, (a, s) in bits.items():
-                if m >> b & 1:
-                    if sig[a] != ".":
-                        valid = False
-                    sig[a] = s
+        self.mask_range = sorted(set(range(64)) | set(produced) | set(self.table))
+        for m in self.mask_range:
             got = self.table.get(m, self.default_value)
-            if valid:
+            if m in produced:
+                sig = produced[m]
                 if got is None or got < 0 or got in self.sig:
                     self.problems.append((m, "".join(sig), got))
                 else:
@@ -215,7 +176,181 @@ class Directions:
                     self.mask_of[got] = m
             else:
                 if m in self.table and self.table[m] is not None and self.table[m] >= 0:
-                    self.problems.append((m, "both bits of an axis", self.table[m]))
+                    self.problems.append((m, "not produced by any index classification", self.table[m]))
+
+    def _eval_mask(self, gd, cls):
+        """Value handed to TravelDirections::get_output_direction when the index has the given per-axis class."""
+        env = {}
+        arrays = {}
+        result = []
+
+        class Stop(Exception):
+            pass
+
+        def index_axis(x):
+            x = C.strip_casts(x)
+            base = idx = None
+            if x.get("k") == "Call" and x.get("op") == "[]" and x.get("obj") is not None and x["a"]:
+                base, idx = C.strip_casts(x["obj"]), x["a"][0]
+            elif x.get("k") == "Idx":
+                base, idx = C.strip_casts(x["a"]), x["i"]
+            if base is None:
+                return None, None
+            v = ev(idx)
+            return base, v
+
+        def is_index(x):
+            base, ax = index_axis(x)
+            if base is not None and base.get("k") == "Ref" and base.get("id") == self._pid and isinstance(ax, int):
+                return ax
+            return None
+
+        def is_ncell(x, ax):
+            base, a2 = index_axis(x)
+            return base is not None and C.member_name(base) == "_number_of_cells" and a2 == ax
+
+        def ev(e):
+            e = C.strip_casts(e)
+            k = e.get("k")
+            v = C.const_int(e)
+            if v is not None and k != "Ref":
+                return v
+            if k == "Bool":
+                return int(bool(e["v"]))
+            if k == "Ref":
+                if ("l", e.get("id")) in env:
+                    return env[("l", e["id"])]
+                if v is not None:
+                    return v
+                raise AnalysisBroken("exit classification: %s has no value (line %s)" % (e.get("n"), e.get("l")))
+            if k in ("Idx",) or (k == "Call" and e.get("op") == "[]"):
+                base, ax = index_axis(e)
+                if base is not None and base.get("k") == "Ref" and ("a", base.get("id")) in arrays and isinstance(ax, int):
+                    if ax not in arrays[("a", base["id"])]:
+                        raise AnalysisBroken("exit classification: array element read before written (line %s)" % e.get("l"))
+                    return arrays[("a", base["id"])][ax]
+                raise AnalysisBroken("exit classification: `%s` is not a class test (line %s)" % (C.pretty(e), e.get("l")))
+            if k == "Cond":
+                return ev(e["a"]) if ev(e["c"]) else ev(e["b"])
+            if k == "Un" and e["op"] == "!":
+                return int(not ev(e["x"]))
+            if k == "Un" and e["op"] == "-":
+                return -ev(e["x"])
+            if k == "Bin":
+                op = e["op"]
+                # the class tests
+                a0, b0 = C.strip_casts(e["a"]), C.strip_casts(e["b"])
+                ax = is_index(a0)
+                if ax is not None and op in ("<", ">=") and C.const_int(b0) == 0:
+                    return int((cls[ax] == "N") == (op == "<"))
+                if ax is not None and op in (">=", "<") and is_ncell(b0, ax):
+                    return int((cls[ax] == "P") == (op == ">="))
+                if ax is not None and op in (">", "<=") and b0.get("k") == "Bin" and b0["op"] == "-" and \
+                        is_ncell(b0["a"], ax) and C.const_int(b0["b"]) == 1:
+                    return int((cls[ax] == "P") == (op == ">"))
+                if op in (">", "<=", "==", "!=") and C.const_int(b0) == 0 and a0.get("k") == "Bin" and a0["op"] == "/":
+                    ax2 = is_index(a0["a"])
+                    if ax2 is not None and is_ncell(a0["b"], ax2):
+                        # index / n > 0  <=>  index >= n (n > 0; a negative index divides to <= 0)
+                        high = cls[ax2] == "P"
+                        return int({">": high, "<=": not high, "!=": high, "==": not high}[op]) if op in (">", "<=") else \
+                            int(high if op == "!=" and cls[ax2] != "N" else (not high if op == "==" and cls[ax2] != "N" else
+                                                                            (_ for _ in ()).throw(AnalysisBroken(
+                                                                                "exit classification: index / n compared with == on "
+                                                                                "a negative index"))))
+                if op in ("&&", "||"):
+                    x = ev(e["a"])
+                    if op == "&&":
+                        return int(bool(x) and bool(ev(e["b"])))
+                    return int(bool(x) or bool(ev(e["b"])))
+                x, y = ev(e["a"]), ev(e["b"])
+                if op == "+":
+                    return x + y
+                if op == "-":
+                    return x - y
+                if op == "*":
+                    return x * y
+                if op == "<<":
+                    return x << y
+                if op == "|":
+                    return x | y
+                if op == "&":
+                    return x & y
+                if op in ("<", ">", "<=", ">=", "==", "!="):
+                    return int({"<": x < y, ">": x > y, "<=": x <= y, ">=": x >= y, "==": x == y, "!=": x != y}[op])
+            if k == "Call" and e.get("fn") == "TravelDirections::get_output_direction" and e["a"]:
+                result.append(ev(e["a"][0]))
+                raise Stop()
+            raise AnalysisBroken("exit classification: expression `%s` not understood (line %s)" % (C.pretty(e)[:80], e.get("l")))
+
+        def assign(tgt, val):
+            t = C.strip_casts(tgt)
+            if t.get("k") == "Ref":
+                env[("l", t["id"])] = val
+                return
+            base, ax = index_axis(t)
+            if base is not None and base.get("k") == "Ref" and isinstance(ax, int):
+                arrays.setdefault(("a", base["id"]), {})[ax] = val
+                return
+            raise AnalysisBroken("exit classification: assignment target `%s` not understood" % C.pretty(t))
+
+        def run(st):
+            k = st.get("k")
+            if k == "Block":
+                if st.get("mac"):
+                    return
+                for c in st.get("s", []):
+                    run(c)
+            elif k == "Decl":
+                for d in st["d"]:
+                    t = d.get("t") or ""
+                    if t.endswith("]") and d.get("init") is None:
+                        arrays[("a", d["id"])] = {}
+                    elif t.endswith("]") and C.strip_casts(d["init"]).get("k") == "InitList":
+                        arrays[("a", d["id"])] = {i: ev(x) for i, x in enumerate(C.strip_casts(d["init"])["a"])}
+                    elif d.get("init") is not None:
+                        env[("l", d["id"])] = ev(d["init"])
+            elif k == "If":
+                if ev(st["c"]):
+                    run(st["th"])
+                elif st.get("el") is not None:
+                    run(st["el"])
+            elif k == "For":
+                if st.get("init") is not None:
+                    run(st["init"])
+                it = 0
+                while st.get("c") is None or ev(st["c"]):
+                    run(st["body"])
+                    if st.get("inc") is not None:
+                        run(st["inc"])
+                    it += 1
+                    if it > 64:
+                        raise AnalysisBroken("exit classification: loop does not terminate in 64 iterations")
+            elif k == "Bin" and st["op"] in ("=", "+=", "|=", "-=", "*=", "<<="):
+                if st["op"] == "=":
+                    assign(st["a"], ev(st["b"]))
+                else:
+                    cur = ev(st["a"])
+                    y = ev(st["b"])
+                    assign(st["a"], {"+=": cur + y, "-=": cur - y, "|=": cur | y, "*=": cur * y, "<<=": cur << y}[st["op"]])
+            elif k == "Un" and st["op"] in ("pre++", "post++", "pre--", "post--"):
+                assign(st["x"], ev(st["x"]) + (1 if "++" in st["op"] else -1))
+            elif k == "Return":
+                if st.get("x") is not None:
+                    ev(st["x"])
+            elif k == "Null":
+                pass
+            elif k == "Call":
+                ev(st)
+            else:
+                raise AnalysisBroken("exit classification: statement kind %s not understood (line %s)" % (k, st.get("l")))
+        try:
+            run(gd["body"])
+        except Stop:
+            pass
+        if len(result) != 1:
+            raise AnalysisBroken("DensitySubGrid::get_output_direction: exit mask not found")
+        return result[0]
 
     @staticmethod
     def _classify(e):
